@@ -113,6 +113,10 @@ pub struct Db {
     /// message in a language other than English, at every byte alignment
     #[serde(default)]
     pub f_text: u8,
+    /// filter-sets whose objects carry only the legacy `filter:` attribute (RFC 2622) and no
+    /// `mp-filter:` (RFC 4012)
+    #[serde(default)]
+    pub legacy_filter_sets: BTreeSet<String>,
 }
 
 impl Db {
@@ -384,8 +388,9 @@ fn answer(db: &Db, line: &str, epoch: usize) -> Option<Vec<u8>> {
                     .iter()
                     .enumerate()
                     .map(|(i, e)| {
+                        let attr = if db.legacy_filter_sets.contains(&name) { "filter:   " } else { "mp-filter:" };
                         format!(
-                            "filter-set:     {}\ndescr:          generated\nmp-filter:      {e}\ntech-c:         DUMMY-TEST\nadmin-c:        DUMMY-TEST\nmnt-by:         MAINT-TEST\nchanged:        test@example.net 20240101\nsource:         SRC{i}",
+                            "filter-set:     {}\ndescr:          generated\n{attr}      {e}\ntech-c:         DUMMY-TEST\nadmin-c:        DUMMY-TEST\nmnt-by:         MAINT-TEST\nchanged:        test@example.net 20240101\nsource:         SRC{i}",
                             arg
                         )
                     })
